@@ -208,7 +208,7 @@ def run_case(case):
 def summarise(agg, tier):
     q = tier == "quick"
     return {
-        "thresholds": {"histories": 55 if q else 700, "history_steps": 150 if q else 2000, "twins": 8 if q else 100, "hash_seed_runs": 25 if q else 200, "entry_point_mixes": 12 if q else 150, "caller_buffers_compared": 15 if q else 200,
+        "thresholds": {"histories": 50 if q else 650, "history_steps": 130 if q else 1800, "twins": 8 if q else 100, "hash_seed_runs": 25 if q else 200, "entry_point_mixes": 12 if q else 150, "caller_buffers_compared": 15 if q else 200,
                        "byte_comparisons": 120 if q else 1800},
         "rule": "histories of 2-6 compilations in one fresh process: A;A, A;B, twins (identical LUT contents / constants / names), mixed entry points (CLI main, convert, "
                 "convert_bytes with the options those hard-wire), mixed accelerators/configurations, long random sequences, optionally with another user of the global `random` "
